@@ -185,6 +185,7 @@ package auth
 // The explicit set is not modified. On error the record is left as it was (still invalid).
 //@ func Authenticator.rebuildCollectionChannels
 //@   safety on
+//@   propagates ComputeChannelsForPrincipal#1   // a failed channel computation never yields a "current" channel set
 //@   requires auth != nil && prKnown(princ) && collsWF(prColls(princ))
 //@   modifies c03Computed, roleImpl.CollectionsAccess, elems(prColls(princ)), elems(prColls(princ)[scope]), elems(pcaHistory(rcCA(princ, scope, collection))), CollectionAccess.Channels_, roleImpl.Channels_, CollectionAccess.ChannelInvalSeq, roleImpl.ChannelInvalSeq, CollectionAccess.ChannelHistory_, roleImpl.ChannelHistory_, elems(channels.TimedSet), GrantHistorySequencePair.StartSeq
 //@   ensures[ts-frame]  tsFrame()
@@ -245,6 +246,7 @@ package auth
 // modified. On error nothing of the user is changed.
 //@ func Authenticator.RebuildRoles
 //@   safety on
+//@   propagates ComputeRolesForUser#1     // a failed role computation never yields a "current" role set: the error surfaces ([error]: nothing changed)
 //@   requires auth != nil && usrKnown(user)
 //@   modifies c03ComputedRoles, c03ComputedRoleKeys, unbox(user, *userImpl).RolesSince_, unbox(user, *userImpl).roles, unbox(user, *userImpl).RoleInvalSeq, unbox(user, *userImpl).RoleHistory_, elems(unbox(user, *userImpl).RoleHistory_), elems(c03ComputedRoles), GrantHistorySequencePair.StartSeq
 //@   ensures[valid]    isNilErr(result) ==> unbox(user, *userImpl).RoleInvalSeq == 0 && unbox(user, *userImpl).RolesSince_ != nil && unbox(user, *userImpl).roles == nil
@@ -314,3 +316,73 @@ package auth
 //@   loop 1 invariant[fresh]   channels != nil && !old(allocated(now(channels)))
 //@   loop 1 invariant[frame]   tsFrame()
 //@   loop 1 invariant[members] forall k string :: {k in channels} (k in channels) <==> (k in user.roleImpl.Channels()) || (exists i int :: {userRoles(user)[i]} 0 <= i && i <= #index && uRoleGives(user, base.DefaultScope, base.DefaultCollection, i, k))
+
+// ---- the rebuild drivers: a failed rebuild is never reported (or persisted) as a successful one ----
+// (path contracts; what a single rebuild does is stated on rebuildCollectionChannels / RebuildRoles)
+
+// RebuildChannels: an invalidated collection is rebuilt; the first failing rebuild ends the call with its error.
+//@ func Authenticator.RebuildChannels
+//@   modifies *
+//@   only-contracts none
+//@   propagates rebuildCollectionChannels#1
+//@   before[only-invalid] call rebuildCollectionChannels#1 callres(CollectionChannels, 1, 0) == nil && $1 == princ && $2 == scope && $3 == collection
+
+// The load callback of getPrincipal: a failed channel or role rebuild aborts the load with the error (nothing is
+// written back, the caller gets no principal); roles are rebuilt exactly when they are invalidated (RoleNames() == nil).
+//@ func Authenticator.getPrincipal$1
+//@   modifies *
+//@   only-contracts none
+//@   propagates RebuildChannels#1 RebuildRoles#1
+//@   before[roles-invalid] call RebuildRoles#1 callres(RoleNames, 1, 0) == nil
+//@   ensures[missing-cancels] currentValue == nil ==> result3 == box(base.ErrUpdateCancel)
+
+// ---- since when does a principal see a channel (also property C01: the changes feed backfills from this sequence) ----
+
+// the sequence at which channel c became visible through the (valid) channel set s: the channel's own grant
+// sequence, else that of the all-channels wildcard; 0 = not visible
+//@ pred tsSince(s channels.TimedSet, c string) uint64
+//@   is ite(s[c].Sequence != 0, s[c].Sequence, s[channels.UserStarChannel].Sequence)
+
+//@ props C03 C01
+//@ func roleImpl.canSeeChannelSince
+//@   safety on
+//@   requires role != nil
+//@   ensures[since] isNilErr(result1) && result0 == tsSince(role.Channels(), channel)
+//@ func roleImpl.canSeeCollectionChannelSince
+//@   safety on
+//@   requires role != nil
+//@   ensures[since] isNilErr(result1) && result0 == tsSince(role.CollectionChannels(scope, collection), channel)
+
+// For a user: the EARLIEST sequence at which the channel (or the wildcard) became visible through the user's own
+// grants or through any role held; 0 iff it is visible through none of them.
+//@ pred uOwnSince(u *userImpl, scope string, coll string, c string) uint64
+//@   is tsSince(u.roleImpl.CollectionChannels(scope, coll), c)
+//@ pred uRoleSeesSince(u *userImpl, scope string, coll string, i int, c string) uint64
+//@   is tsSince(uRoleCh(u, scope, coll, i), c)
+
+//@ func userImpl.canSeeCollectionChannelSince
+//@   safety on
+//@   requires user != nil
+//@   modifies user.roles, user.deletedRoles
+//@   ensures[load-err]  result1 == rolesLoadErr(user) && (!isNilErr(result1) ==> result0 == 0)
+//@   ensures[earliest-own]   isNilErr(result1) && uOwnSince(user, scope, collection, channel) != 0 ==> result0 != 0 && result0 <= uOwnSince(user, scope, collection, channel)
+//@   ensures[earliest-roles] isNilErr(result1) ==> (forall i int :: {userRoles(user)[i]} 0 <= i && i < len(userRoles(user)) && uRoleSeesSince(user, scope, collection, i, channel) != 0 ==> result0 != 0 && result0 <= uRoleSeesSince(user, scope, collection, i, channel))
+//@   ensures[attained]       isNilErr(result1) && result0 != 0 ==> result0 == uOwnSince(user, scope, collection, channel) || (exists i int :: {userRoles(user)[i]} 0 <= i && i < len(userRoles(user)) && result0 == uRoleSeesSince(user, scope, collection, i, channel))
+//@   loop 1 invariant[roles]          roles == userRoles(user) && rolesWF(user) && isNilErr(rolesLoadErr(user)) && #index < len(roles)
+//@   loop 1 invariant[earliest-own]   uOwnSince(user, scope, collection, channel) != 0 ==> minSeq != 0 && minSeq <= uOwnSince(user, scope, collection, channel)
+//@   loop 1 invariant[earliest-roles] forall i int :: {userRoles(user)[i]} 0 <= i && i <= #index && uRoleSeesSince(user, scope, collection, i, channel) != 0 ==> minSeq != 0 && minSeq <= uRoleSeesSince(user, scope, collection, i, channel)
+//@   loop 1 invariant[attained]       minSeq != 0 ==> minSeq == uOwnSince(user, scope, collection, channel) || (exists i int :: {userRoles(user)[i]} 0 <= i && i <= #index && minSeq == uRoleSeesSince(user, scope, collection, i, channel))
+
+//@ func userImpl.canSeeChannelSince
+//@   safety on
+//@   requires user != nil
+//@   modifies user.roles, user.deletedRoles
+//@   ensures[load-err]  result1 == rolesLoadErr(user) && (!isNilErr(result1) ==> result0 == 0)
+//@   ensures[earliest-own]   isNilErr(result1) && tsSince(user.roleImpl.Channels(), channel) != 0 ==> result0 != 0 && result0 <= tsSince(user.roleImpl.Channels(), channel)
+//@   ensures[earliest-roles] isNilErr(result1) ==> (forall i int :: {userRoles(user)[i]} 0 <= i && i < len(userRoles(user)) && tsSince(uRole(user, i).Channels(), channel) != 0 ==> result0 != 0 && result0 <= tsSince(uRole(user, i).Channels(), channel))
+//@   ensures[attained]       isNilErr(result1) && result0 != 0 ==> result0 == tsSince(user.roleImpl.Channels(), channel) || (exists i int :: {userRoles(user)[i]} 0 <= i && i < len(userRoles(user)) && result0 == tsSince(uRole(user, i).Channels(), channel))
+//@   loop 1 invariant[roles]          roles == userRoles(user) && rolesWF(user) && isNilErr(rolesLoadErr(user)) && #index < len(roles)
+//@   loop 1 invariant[earliest-own]   tsSince(user.roleImpl.Channels(), channel) != 0 ==> minSeq != 0 && minSeq <= tsSince(user.roleImpl.Channels(), channel)
+//@   loop 1 invariant[earliest-roles] forall i int :: {userRoles(user)[i]} 0 <= i && i <= #index && tsSince(uRole(user, i).Channels(), channel) != 0 ==> minSeq != 0 && minSeq <= tsSince(uRole(user, i).Channels(), channel)
+//@   loop 1 invariant[attained]       minSeq != 0 ==> minSeq == tsSince(user.roleImpl.Channels(), channel) || (exists i int :: {userRoles(user)[i]} 0 <= i && i <= #index && minSeq == tsSince(uRole(user, i).Channels(), channel))
+//@ props C03
